@@ -26,7 +26,11 @@ const (
 	NumForks
 )
 
-var forkNames = []string{"Frontier", "Homestead", "Tangerine", "Spurious", "Byzantium", "Constantinople", "Petersburg", "Istanbul", "Berlin", "London", "Merge", "Shanghai", "Cancun"}
+// Prague is configured by the chain configuration (PragueTime) although v1.12.0 gives it no rules of its own:
+// everything that holds from Cancun on has to keep holding. It is not part of the random fork pickers.
+const Prague Fork = NumForks
+
+var forkNames = []string{"Frontier", "Homestead", "Tangerine", "Spurious", "Byzantium", "Constantinople", "Petersburg", "Istanbul", "Berlin", "London", "Merge", "Shanghai", "Cancun", "Prague"}
 
 func (f Fork) String() string { return forkNames[f] }
 
@@ -86,6 +90,10 @@ func ChainConfig(f Fork) *params.ChainConfig {
 	if f >= Cancun {
 		t := uint64(0)
 		c.CancunTime = &t
+	}
+	if f >= Prague {
+		t := uint64(0)
+		c.PragueTime = &t
 	}
 	return c
 }
